@@ -90,6 +90,27 @@ def r1(ctx, R):
         R.bad(es, es.node, "consumed list is not emptied", stmt="rolledback.clear()")
 
 
+@rule("C17.R4", "C17", "DOM", "the traceback of a failed run is built whatever the error-reporting mode", min_instances=2)
+def r4(ctx, R):
+    """In both executors' _start_exec, `self.errorstack = ErrorStack(self.excinfo, self.rolledback)` is executed
+    on every path on which `self.excinfo` is set - not only when a FormulaError is going to be raised
+    (use_formula_error(False) re-raises the original exception; get_traceback() must still answer)."""
+    for spec in ("NonThreadedExecutor._start_exec", "ThreadedExecutor._start_exec"):
+        fi = ctx.func(spec)
+        ws = [st for st, t in q.attr_writes(fi, attr="errorstack", recv="self")
+              if isinstance(st.value, ast.Call) and call_name(st.value) == "ErrorStack"]
+        R.inst("%s: ErrorStack(excinfo, rolledback) under `self.excinfo` only" % spec)
+        if len(ws) != 1:
+            R.bad(fi, fi.node, "the error stack is not built exactly once", stmt="errorstack = ErrorStack(")
+            continue
+        g = q.guards_of(fi, ws[0])
+        if set(g) != {("self.excinfo", "T")}:
+            R.bad(fi, ws[0], "the traceback is built only under %s: with use_formula_error(False) the original exception is "
+                             "re-raised and get_traceback() returns []" % sorted(g))
+        if [norm(a) for a in ws[0].value.args] != ["self.excinfo", "self.rolledback"]:
+            R.bad(fi, ws[0], "the error stack is not built from the stored exception and the rolled-back nodes")
+
+
 @rule("C17.R2", "C17", "TABLE", "frame-name literal equals the formula-invoking method; one traceback step per frame",
       min_instances=5)
 def r2(ctx, R):
